@@ -176,6 +176,15 @@ def run_unit(unit, tier):
             res.degraded = m.get("lost_hints", [])
             if not res.degraded:
                 raise
+    except extract.OrderViolation as e:
+        # decided by the extractor itself: report as a failed obligation `<slice>.order`
+        oid = e.fid + ".order"
+        res.map = {"functions": [], "lines": [], "ranges": {}, "lost_hints": []}
+        res.obligations[oid] = {"props": e.props, "fn": e.fid, "line": 0,
+                                "text": "the slice ends before the statement that must follow it (everything fallible is constructed before the pipeline is started / anything is read or written)"}
+        res.failed[oid] = [{"message": "statement order violated", "rendered": "extractor: " + e.msg, "spans": []}]
+        res.order_only = True
+        return res
     except (extract.ExtractError, LookupError) as e:
         res.undecided.append("extract: " + str(e))
         return res
